@@ -59,9 +59,10 @@ def optimizer_for(pest, passes=None):
 def build(pest, grammar: str, mode: str, passes=None):
     """Return (parser_like, base_parser). mode in MODES; `passes` = list of pass names for opt modes."""
     opt = optimizer_for(pest, passes) if mode in ("opt", "optgen") else None
-    p = pest.Parser.from_grammar(grammar, optimizer=opt)
-    if mode in ("gen", "optgen"):
-        return Generated(p.generate()), p
+    with watchdog(30):  # loading / optimizing / generating must terminate; a Timeout here is reported by the caller as a build failure
+        p = pest.Parser.from_grammar(grammar, optimizer=opt)
+        if mode in ("gen", "optgen"):
+            return Generated(p.generate()), p
     return p, p
 
 
